@@ -1432,7 +1432,8 @@ impl<Word, Buf: SafeBuf<Word> + AsMut<[Word]>> BoundedWriteWords<Word>
 {
     #[inline(always)]
     fn space_left(&self) -> usize {
-        self.0.buf.as_ref().len()
+        // A reversed cursor writes downwards, so it can write until `pos` reaches zero.
+        self.0.pos
     }
 }
 
